@@ -877,10 +877,9 @@ func inBodyIM(p *parser) bool {
 		switch n := p.oe.top(); n.DataAtom {
 		case a.Pre, a.Listing:
 			if n.FirstChild == nil {
-				// Ignore a newline at the start of a <pre> block.
-				if d != "" && d[0] == '\r' {
-					d = d[1:]
-				}
+				// Ignore a newline at the start of a <pre> block. The tokenizer
+				// has already converted "\r" and "\r\n" to "\n"; a remaining
+				// '\r' came from a character reference and is content.
 				if d != "" && d[0] == '\n' {
 					d = d[1:]
 				}
@@ -1440,10 +1439,9 @@ func textIM(p *parser) bool {
 	case TextToken:
 		d := p.tok.Data
 		if n := p.oe.top(); n.DataAtom == a.Textarea && n.FirstChild == nil {
-			// Ignore a newline at the start of a <textarea> block.
-			if d != "" && d[0] == '\r' {
-				d = d[1:]
-			}
+			// Ignore a newline at the start of a <textarea> block. The tokenizer
+			// has already converted "\r" and "\r\n" to "\n"; a remaining
+			// '\r' came from a character reference and is content.
 			if d != "" && d[0] == '\n' {
 				d = d[1:]
 			}
